@@ -15,7 +15,7 @@ RULE = ("for each entry point that consumes remote data (typed event enums incl.
         "verify JSON and events with hostile key IDs, Ed25519KeyPair::from_der with ring-compat, "
         "all identifier parsers and accessors, Matrix URIs, MXC URIs, push ruleset JSON + edits + "
         "patterns + get_match on raw events, flattening, HTML parse / sanitize, endpoint request / "
-        "response / error-body decoding of 36 real endpoints, Content-Disposition, X-Matrix): "
+        "response / error-body decoding of 36 real endpoints, multipart/mixed federation media responses, Content-Disposition, X-Matrix): "
         "valid seeds from the other monitors' generators, then structure-level (delete / duplicate "
         "/ type swap / huge, negative, fractional, exponent numbers / boundary-length strings / "
         "nesting), character-level (delete, insert, repeat, truncate, rotate) and byte-level "
@@ -286,7 +286,36 @@ def api_commands(ctx, n, real):
             if rng.random() < 0.3:
                 body = mu.textual(rng, body)
             out.append(({"op": "fuzz_error_body", "http": {"status": rng.choice([400, 401, 403, 404, 429, 500, 599]), "body": body}, "tolerant": True}, "api"))
-        elif r < 0.9:
+        elif r < 0.86:
+            # federation media: multipart/mixed response bodies (boundary from the Content-Type header)
+            bnd = rng.choice(["abcdef", "a", "x" * 70, "--", "b-1_2"])
+            parts = ["", "--%s\r\nContent-Type: application/json\r\n\r\n{}" % bnd,
+                     "\r\n--%s\r\nContent-Type: text/plain\r\nContent-Disposition: attachment; filename=\"f.txt\"\r\n\r\nsome plain text" % bnd,
+                     "\r\n--%s--" % bnd]
+            if rng.random() < 0.3:
+                parts[2] = "\r\n--%s\r\nLocation: https://cdn.example/x\r\n\r\n" % bnd
+            body = "".join(parts)
+            if rng.random() < 0.5:
+                body = "\r\n" + body
+            for _ in range(rng.randint(0, 4)):
+                q = rng.random()
+                i = rng.randint(0, len(body))
+                if q < 0.3:
+                    j = min(len(body), i + rng.choice([1, 2, 2, 4, 8]))
+                    body = body[:i] + body[j:]
+                elif q < 0.5:
+                    body = body.replace("\r\n", rng.choice(["\n", "\r", "", " "]), rng.randint(1, 3))
+                elif q < 0.7:
+                    body = body[:i] + rng.choice(["--" + bnd, "\r\n--" + bnd, "\r\n", "\n\n", ":", "--", "\x00", "é"]) + body[i:]
+                elif q < 0.85:
+                    body = body[:i]
+                else:
+                    body = mu.textual(rng, body)
+            ct = rng.choice(["multipart/mixed; boundary=%s" % bnd, "multipart/mixed; boundary=\"%s\"" % bnd, "multipart/mixed",
+                             "multipart/mixed; boundary=", "text/plain", "multipart/mixed; boundary=zzz"])
+            out.append(({"op": "multipart_response", "content_type": ct,
+                         "body_b64": base64.b64encode(body.encode("utf-8", "surrogatepass")[:100000]).decode(), "tolerant": True}, "api"))
+        elif r < 0.92:
             t = rng.choice(["attachment; filename=\"a.txt\"", "inline", "attachment; filename*=UTF-8''%e2%82%ac%20rates", "attachment; filename=a; filename*=utf-8'en'b",
                             "form-data; name=x; filename=\"a\\\"b\"", "attachment;filename*=UTF-8''%", "attachment; filename*=''", "x; =; ;;", ""])
             for _ in range(rng.randint(0, 3)):
@@ -315,6 +344,7 @@ CANARY_API = [
     {"op": "xmatrix_parse", "text": "X-Matrix origin=\"origin.hs.example.com\",destination=\"destination.hs.example.com\",key=\"ed25519:key1\",sig=\"ABCDEF\""},
     {"op": "select_path_real", "endpoint": "synth.newtype_body", "version_sets": [["v1.1"], ["v1.3", "v1.12"], ["v1.12"]]},
     {"op": "content_disposition", "text": "attachment; filename=\"my file.txt\""},
+    {"op": "multipart_response", "content_type": "multipart/mixed; boundary=abcdef", "body_b64": "DQotLWFiY2RlZg0KDQp7fQ0KLS1hYmNkZWYNCkNvbnRlbnQtVHlwZTogdGV4dC9wbGFpbg0KDQpzb21lIHBsYWluIHRleHQNCi0tYWJjZGVmLS0="},
 ]
 
 
@@ -327,6 +357,10 @@ def run_layer(ctx, layer, cmds, canary):
             raise RuntimeError("canary %r does not run: %r" % (c, r))
     B = 400
     for i in range(0, len(cmds), B):
+        if getattr(w, "hangs", 0) >= 6:
+            # the tree hangs again and again: the verdict is settled, stop feeding this layer
+            rep.count("stopped_after_repeated_hangs")
+            break
         chunk = cmds[i:i + B]
         replies = w.call_many([c for c, _ in chunk], per_op_timeout=30)
         for (cmd, fam), r in zip(chunk, replies):
